@@ -103,7 +103,7 @@ WORKER_ASSUME = COMMON_ASSUME + [
 ]
 PROPS = {
     "C04": dict(claim='Inductive invariant (live children == the child owned by the state) proved by Verus over the real job-task loop and both handlers, for every control, child behaviour and fault; unbounded', trusted="environment stand-ins in prelude/task_env.rs (process-wrap child, tokio select/mpsc, user callbacks, clock), flag_env.rs; rewrite rules of the extractor; listed per run in evidence coverage.trusted_base and assumptions",
-                units=["task"], level="proof", assumptions=TASK_ASSUME,
+                units=["task", "command"], level="proof", assumptions=TASK_ASSUME,
                 explanation="inductive invariant I1 (live children == the one child owned by the state) assumed at entry and proved at every exit of both select arms of the job task, for every control, every child behaviour and every failure of kill/wait/spawn; CommandState::{spawn,wait,reset} bodies proved against the contracts the arms rely on"),
     "C06": dict(claim='Contracts on the graceful arms, Timer and PriorityReceiver::recv proved by Verus for all grace values, timings and queue contents; restart-exactly-once clauses on the continuation arms', trusted="environment stand-ins in prelude/task_env.rs (process-wrap child, tokio select/mpsc, user callbacks, clock), flag_env.rs; rewrite rules of the extractor; listed per run in evidence coverage.trusted_base and assumptions",
                 units=["task", "actionloop", "cliaction"], level="proof", assumptions=TASK_ASSUME + ["the CLI's quit closure (first request: graceful with the stop signal and stop timeout) is proved in unit cliaction", "the library's own graceful quit (action::worker) is a caller of Job::stop_with_signal: its per-job quit task is proved (unit actionloop) to send the graceful stop with the requested signal and grace and then a NORMAL delete, which the job task holds back until the process has ended"]),
@@ -150,7 +150,7 @@ PROPS = {
     "C01": dict(units=["worker", "sources", "actionloop"], level="proof", assumptions=WORKER_ASSUME,
                 claim="throttle_collect proved by Verus: the returned batch is exactly the accepted sub-sequence (urgent, empty or filter-accepted) of the messages it received, never empty; loop invariant over all event streams, verdict sequences and timings",
                 trusted="stand-ins in prelude/worker_env.rs (async_priority_channel receiver, tokio timeout, Changeable throttle, arbitrary filterer, error channel); frame lemmas applied in verified wrappers (units/worker/spec.rs)"),
-    "C02": dict(units=["worker", "actionloop"], level="proof", assumptions=WORKER_ASSUME + ["wall-clock accuracy of tokio timers is not decided; 'arrive within the window' = received by the worker before the return"],
+    "C02": dict(units=["worker", "actionloop", "cfgwatch"], level="proof", assumptions=WORKER_ASSUME + ["wall-clock accuracy of tokio timers is not decided; 'arrive within the window' = received by the worker before the return"],
                 claim="throttle_collect proved by Verus: a non-urgent batch is not returned before first-event time + throttle, an urgent event is the last one received and is never filtered, the recv timeout never exceeds the rest of the window",
                 trusted="stand-ins in prelude/worker_env.rs (virtual clock: only blocking calls let time pass)"),
     "C15": dict(units=["worker", "errhook", "sources", "fswatch", "maintask", "cfgwatch"], level="proof", assumptions=WORKER_ASSUME + ["watch/unwatch failures (unit fswatch): the notify watcher is an abstract map whose calls may fail arbitrarily; notify_multi_path_errors is a stand-in yielding one runtime error per path the notify error names (at least one)"],
@@ -197,7 +197,7 @@ PROPS = {
                              "clap parsing (conflicts_with between --restart and --on-busy-update) not decided"],
                 claim="Verus proves the on-busy block sends exactly the documented controls per (running, mode): idle -> Start; do-nothing -> nothing; signal -> the configured signal only; restart -> graceful restart with the stop signal/timeout; queue -> at most one follow-up task, which waits for the current run to end and then starts one run; --signal/-r select the mode; start-up event sent iff not --postpone (structural); non-overlap is C04's invariant (same obligations)",
                 trusted="stand-ins in prelude/cliaction_env.rs (Job handle as a control log, atomics), prelude/task_env.rs"),
-    "C08": dict(units=["actionloop", "latejoin", "maintask", "cliaction", "task", "flag", "sources", "handlerjobs"], level="proof",
+    "C08": dict(units=["actionloop", "latejoin", "maintask", "cliaction", "task", "flag", "sources", "handlerjobs", "command"], level="proof",
                 fallback=[replay_engine("lib", "graceful_quit_three_stubborn_jobs_within_grace", "C08.bounded.graceful_quit_three_stubborn_jobs_within_grace",
                                         "3 jobs that ignore SIGTERM, quit_gracefully(Terminate, 1.5 s) on the real library: the main task ends within grace + 1.2 s, not before the grace, and no process survives"),
                           replay_engine("lib", "graceful_quit_after_the_handler_deleted_the_job", "C08.bounded.graceful_quit_after_the_handler_deleted_the_job",
